@@ -7,7 +7,8 @@
    scenario; the pre-fix preload thread (PreFix = TRUE) must violate EventuallyQuiescent.
    `g_expiry stuck` reproduces the strict property's counterexample on a real node (known finding).
 2. Orphan expiry (spec/ChainCoreX.tla = ChainCore + CleanExpired + history variable `gone`): all C01 invariants with
-   "heaviest valid chain among the blocks that were not expired", RetainedWithinHorizon, GoneConsistent; liveness with expiry.
+   "heaviest valid chain among the blocks that were not expired", RetainedWithinHorizon, GoneConsistent; liveness with expiry
+   (EventuallyJudgedX, EventuallyQuiescentX, EventuallyCleaned).
    R: TLC exports every quiescent state of the model with the code's constants (EXPIRED_EPOCH = 6, epochs of 1 / 2 blocks, a
    prefix of 8 / 15 attached blocks); `g_expiry replay` delivers the scenarios to a real node whose expiry tick runs every
    30 ms (hook f5c206f) and the final state must be one the model allows for exactly that (tree, order).
@@ -65,7 +66,7 @@ def scen_key(q):
 def proj(q):
     n = q["n"]
     return {"tip": q["tip"], "stored": q["stored"], "main": q["main"], "ext": q["ext"][:n], "invalid": q["invalid"], "orphans": q["orphans"],
-            "replies": [list(r) for r in q["replies"][:n]], "lost": sum(q["lost"][:n]), "gone": q["gone"]}
+            "replies": [list(r) for r in q["replies"][:n]], "lost": sum(q["lost"][:n]), "gone": q["gone"], "clean": q["clean"]}
 
 
 def outcome_sets(out):
@@ -110,13 +111,18 @@ def run_expiry_replay(c, groups, keys, jobs, stats):
                     raise V.ToolError("node did not come to rest in an expiry scenario")
                 got = {"tip": o["tip"], "stored": o["stored"], "main": o["main"], "ext": o["ext"], "invalid": o["invalid"], "orphans": o["orphans"],
                        "replies": o["replies"], "lost": o["dropped"]}
-                match = [a for a in groups[k] if {x: v for x, v in a.items() if x != "gone"} == got]
+                match = [a for a in groups[k] if {x: v for x, v in a.items() if x not in ("gone", "clean")} == got]
                 c.case({"expiry_scenario": json.loads(k)}, True)
                 if not match:
                     best = min(groups[k], key=lambda a: sum(1 for x in got if a[x] != got[x]))
                     field = [x for x in got if best[x] != got[x]][0]
                     c.violation("growth-expiry/state/" + field, "real node's final state is not one the model (ChainCoreX) allows for this tree and order: %s = %s, allowed %s"
                                 % (field, got[field], [a[field] for a in groups[k]]),
+                                {"kind": "growth_chaincore", "mode": "expiry", "scenario": json.loads(k), "allowed": groups[k], "observed": o})
+                    continue
+                if not any(a["clean"] for a in match):
+                    # at least three ticks passed at rest: nothing beyond the horizon may be left in the pool
+                    c.violation("growth-expiry/not-expired-after-three-ticks", "orphans beyond the retention horizon are still in the pool after three expiry ticks: %s" % o["orphans"],
                                 {"kind": "growth_chaincore", "mode": "expiry", "scenario": json.loads(k), "allowed": groups[k], "observed": o})
                     continue
                 stats["replayed"] += 1
